@@ -136,6 +136,10 @@ class WorldAdapter:
         env.w = desper.World()
         env.step_no = 0
         env.quiet = 3 if (self.counter % 5 == 3 and getattr(self, 'allow_quiet', True)) else 0
+        # reading the world from a lifecycle callback is everyday code and has no effect: in every other behaviour (outside
+        # the quiet prefixes) each on_add / on_remove of a component queries every type before doing anything else
+        env.look = self.counter % 2 == 0 and not env.quiet
+        env.looks = 0
         env.blog = []
         bcomp = desper.event_handler('on_add', 'on_remove', 'probe')(
             type('ByComp', (), {'on_add': lambda s_, e, w_: env.blog.append('on_add'), 'on_remove': lambda s_, e, w_: env.blog.append('on_remove'),
@@ -159,6 +163,10 @@ class WorldAdapter:
                 if self is None:
                     env.log.append((cb, 'None', modelid(entity)))
                     return
+                if env.look and world is env.w:
+                    env.looks += 1
+                    for t in env.types.values():
+                        world.get(t)
                 if controllers and cb == 'on_add':
                     desper.Controller.on_add(self, entity, world)
                 if env.killer and env.killer[0] == self.name and cb == 'on_remove':
